@@ -250,7 +250,7 @@ func c06Trees(maxOps int, lits []int64, name string) *core.Scenario {
 
 // positions: a reduced expression set in every other operand position that admits an expression.
 func c06Positions(lits []int64) *core.Scenario {
-	positions := []string{"EQU_reuse", "DB", "DW", "MOV AX", "MOV EAX", "MOV CL", "[BX+e]", "[EBX+e]", "[e+BX]", "[BX+e-1]", "[BX+SI+e]", "[EBX+ESI+e]", "[EBX+ESI*2+e]", "[BX+e+SI]", "RESB", "EQU", "EQU_chain", "ORG", "ADD CX", "PUSH"}
+	positions := []string{"EQU_reuse", "DB", "DW", "MOV AX", "MOV EAX", "MOV CL", "[BX+e]", "[EBX+e]", "[e+BX]", "[BX+e-1]", "[BX+SI+e]", "[EBX+ESI+e]", "[EBX+ESI*2+e]", "[BX+e+SI]", "RESB", "EQU", "EQU_chain", "EQU_dollar", "ORG", "ADD CX", "PUSH"}
 	return &core.Scenario{
 		Name: "positions", Bound: -1,
 		Rule:   "all expressions with <= 1 operator (and a 2-operator sample) over the literal set, placed in every operand position that admits an expression (data, immediates, displacements before/after/around a register term, RESB, EQU bodies, ORG); the encoded value must be the reference value modulo the field width; non-trivial = expression with an operator",
@@ -324,6 +324,8 @@ func c06Positions(lits []int64) *core.Scenario {
 				src = "X EQU " + e + "\n" + sentinelLine(0) + "\tDD X\n" + sentinelLine(1)
 			case "EQU_chain":
 				src = "X EQU " + e + "\nY EQU X*2+1\n" + sentinelLine(0) + "\tDD Y\n" + sentinelLine(1)
+			case "EQU_dollar": // the body uses $: it must be evaluated where the definition stands (ORG 0x7c00, 11 bytes emitted)
+				src = "\tORG 0x7c00\n\tDB 1,2,3\n" + sentinelLine(2) + "X EQU $+" + ep + "\n\tDB 4\n" + sentinelLine(0) + "\tDD X\n" + sentinelLine(1)
 			case "EQU_reuse": // the name is used as first factor of a product/quotient/remainder and then again
 				src = "X EQU " + e + "\nK EQU 3\n\tDD X*K\n\tDD X/K\n\tDD X%K\n\tDD K*X\n" + sentinelLine(0) + "\tDD X\n" + sentinelLine(1) + "\tDD K\n"
 			case "ORG":
@@ -377,6 +379,13 @@ func c06Positions(lits []int64) *core.Scenario {
 						}
 						got = rdle(reg)
 					case "EQU", "ORG", "EQU_reuse":
+						if len(reg) != 4 {
+							fail("length", "expected 4 bytes")
+							return v
+						}
+						got = rdle(reg)
+					case "EQU_dollar":
+						want = want + 0x7c00 + 11
 						if len(reg) != 4 {
 							fail("length", "expected 4 bytes")
 							return v
@@ -518,15 +527,143 @@ func c06Pairs() *core.Scenario {
 	}
 }
 
+// c06Spellings: one value, many spellings of the literal (leading zeros, hexadecimal digit case and padding,
+// character literal, sign), in every kind of position.
+func c06Spellings() *core.Scenario {
+	type lit struct {
+		text string
+		val  int64
+	}
+	lits := []lit{{"010", 10}, {"0010", 10}, {"017", 17}, {"0100", 100}, {"00", 0}, {"007", 7}, {"08", 8}, {"09", 9}, {"-012", -12}, {"0000000064", 64},
+		{"0x0A", 10}, {"0X0a", 10}, {"0x00ff", 255}, {"0xFF", 255}, {"0Xff", 255}, {"0x000000001f", 31}, {"'A'", 65}, {"'0'", 48}, {"' '", 32}, {"'~'", 126}}
+	forms := []string{"{}", "{}+1", "2*{}", "({})", "{}/2", "1+{}*2"}
+	positions := []string{"DB", "DW", "DD", "MOV AL", "MOV EAX", "[BX+e]", "RESB", "EQU", "ADD CX"}
+	return &core.Scenario{
+		Name: "literal_spellings", Bound: -1,
+		Rule:   "20 spellings of literals (decimal with leading zeros - never octal -, hexadecimal with either case of x and of the digits and with padding, character literals, a sign) x 6 expression forms around the literal x 9 operand positions: the encoded value must be the reference value modulo the field width",
+		Bounds: map[string]any{"literals": len(lits), "forms": forms, "positions": positions},
+		Build: func(c *core.Chooser) *core.Case {
+			l := lits[c.Pick("lit", len(lits))]
+			f := forms[c.Pick("form", len(forms))]
+			pos := positions[c.Pick("pos", len(positions))]
+			e := strings.ReplaceAll(f, "{}", l.text)
+			var want int64
+			switch f {
+			case "{}", "({})":
+				want = l.val
+			case "{}+1":
+				want = l.val + 1
+			case "2*{}":
+				want = 2 * l.val
+			case "{}/2":
+				want = l.val / 2
+			case "1+{}*2":
+				want = 1 + l.val*2
+			}
+			if pos == "RESB" && (want < 0 || want > 4096) {
+				return nil
+			}
+			var src string
+			switch pos {
+			case "DB", "DW", "DD":
+				src = sentinelLine(0) + "\t" + pos + " " + e + "\n" + sentinelLine(1)
+			case "MOV AL", "MOV EAX", "ADD CX":
+				src = sentinelLine(0) + "\t" + pos + "," + e + "\n" + sentinelLine(1)
+			case "[BX+e]":
+				src = sentinelLine(0) + "\tMOV AX,[BX+" + e + "]\n" + sentinelLine(1)
+			case "RESB":
+				src = sentinelLine(0) + "\tRESB " + e + "\n" + sentinelLine(1)
+			case "EQU":
+				src = "X EQU " + e + "\n" + sentinelLine(0) + "\tDD X\n" + sentinelLine(1)
+			}
+			return &core.Case{
+				Key:  pos + " | " + e,
+				Feat: feat("pos", "spelling_"+pos, "lit", l.text, "form", f),
+				Srcs: []string{src},
+				Judge: func(rs []*core.Result) core.Verdict {
+					r := rs[0]
+					v := core.Verdict{}
+					if core.ReportsError(r, nil) {
+						v.Outcome = "diagnosed"
+						v.Fails = []core.Fail{{Facet: "value", Dev: "refused", Detail: errSummary(r)}}
+						return v
+					}
+					v.Outcome, v.Nontrivial = "assembled", true
+					reg, ok := between(r.Out, 0, 1)
+					if !ok {
+						v.Fails = []core.Fail{{Facet: "layout", Dev: "sentinels_lost", Detail: hexs(r.Out)}}
+						return v
+					}
+					fail := func(dev, detail string) {
+						v.Fails = append(v.Fails, core.Fail{Facet: "value", Dev: dev, Detail: fmt.Sprintf("%s %s: %s (reference value %d, bytes %x)", pos, e, detail, want, reg)})
+					}
+					var got int64
+					width := 32
+					switch pos {
+					case "DB":
+						width = 8
+						if len(reg) != 1 {
+							fail("length", "expected 1 byte")
+							return v
+						}
+						got = rdle(reg)
+					case "DW":
+						width = 16
+						if len(reg) != 2 {
+							fail("length", "expected 2 bytes")
+							return v
+						}
+						got = rdle(reg)
+					case "DD", "EQU":
+						if len(reg) != 4 {
+							fail("length", "expected 4 bytes")
+							return v
+						}
+						got = rdle(reg)
+					case "RESB":
+						if int64(len(reg)) != want {
+							fail("length", fmt.Sprintf("reserved %d bytes", len(reg)))
+						}
+						return v
+					default:
+						in, err := x86ref.Decode(reg, 16)
+						if err != nil || in.Len != len(reg) {
+							fail("undecodable", fmt.Sprint(err))
+							return v
+						}
+						found := false
+						for _, o := range in.Ops {
+							if o.Kind == "imm" {
+								got, width, found = o.Imm, o.Size, true
+							} else if o.Kind == "mem" {
+								got, width, found = o.Mem.Disp, o.Mem.AddrSize, true
+							}
+						}
+						if !found {
+							fail("no_value_field", in.String())
+							return v
+						}
+					}
+					mask := int64(1)<<uint(width) - 1
+					if (got^want)&mask != 0 {
+						fail("wrong_value", fmt.Sprintf("encoded %#x, want %#x (mod 2^%d)", got&mask, want&mask, width))
+					}
+					return v
+				},
+			}
+		},
+	}
+}
+
 func init() {
 	register(&Property{
 		ID: "C06",
 		Scenarios: func(tier string) []*core.Scenario {
 			lq := []int64{0, 1, -1, 7, 255, 0x10, 0x7fffffff, 3, 0x80000000, 0xfffff000}
 			if tier == "thorough" {
-				return []*core.Scenario{c06Trees(2, lq, "trees_le2"), c06Trees(3, []int64{0, 1, -1, 7, 255}, "trees_le3"), c06Positions(lq), c06Pairs()}
+				return []*core.Scenario{c06Trees(2, lq, "trees_le2"), c06Trees(3, []int64{0, 1, -1, 7, 255}, "trees_le3"), c06Positions(lq), c06Pairs(), c06Spellings()}
 			}
-			return []*core.Scenario{c06Trees(2, lq, "trees_le2"), c06Positions(lq), c06Pairs()}
+			return []*core.Scenario{c06Trees(2, lq, "trees_le2"), c06Positions(lq), c06Pairs(), c06Spellings()}
 		},
 		Assumptions: []string{
 			"reference semantics: arbitrary-precision integers, * / % bind tighter than + -, equal precedence associates left to right, / truncates toward zero, % takes the sign of the dividend; an expression whose value or an intermediate value leaves int64 is not judged",
